@@ -52,6 +52,11 @@ def all_ops():
             ops.append({"op": "update", "name": n, "newname": new, "def": (NAMES.index(new) + 1) % len(DEFS)})
         for new in NAMES + [None]:
             ops.append({"op": "replace", "name": n, "newname": new, "def": 1, "description": "d" if new is None else None})
+    # the API also takes names as UTF-8 bytes
+    ops.append({"op": "add", "name": b"n1", "def": 0})
+    ops.append({"op": "remove", "name": b"n2"})
+    ops.append({"op": "disable", "name": b"n1"})
+    ops.append({"op": "update", "name": b"n1", "newname": b"n3", "def": 2})
     return ops
 
 
@@ -126,7 +131,7 @@ def run_history(ops, last_only=False):
     for step, op in enumerate(ops):
         before_text = None
         before = snapshot(fs)
-        unknown = model.find(op["name"]) < 0 and op["op"] != "add"
+        unknown = model.find(op["name"].decode("utf-8") if isinstance(op["name"], bytes) else op["name"]) < 0 and op["op"] != "add"
         last = step == len(ops) - 1
         if unknown and (last or not last_only):
             try:
